@@ -247,7 +247,142 @@ def source_audit():
     return {"files": files, "hits": hits}
 
 
+def scaffold_batch(ctx, kinds, n, **kw):
+    import k2
+    progs = [k2.gen_scaffold(ctx.rng, "p%d" % i, ctx.rng.pick(kinds), **kw) for i in range(n)]
+    return progs
+
+
+def run_k2(ctx, progs, crate="k2sync"):
+    import k2
+    res = k2.run_programs(ctx, progs, crate=crate)
+    n_bad = k2.report(ctx, res)
+    for (p, problems, rl, sl) in res[:2]:
+        if p is not None:
+            ctx.out.coverage["samples"].append({"program": "%s! { %s }" % (p.name, p.macro_input()), "observed": rl[:300]})
+    for (p, problems, rl, sl) in res:
+        if p is not None:
+            ctx.shapes.add(p.kind + struct_shape(re.sub(r"\d+", "0", p.macro_input())))
+            ctx.dist["k2:" + p.name] += 1
+            ctx.dist["k2:depths:" + "-".join(str(p.depth(b)) for b in range(len(p.branches)))] += 0
+    ctx.out.coverage["traces_validated_against_impl"] = ctx.out.coverage.get("traces_validated_against_impl", 0) + sum(1 for r in res if r[0] is not None)
+    return res
+
+
+def body_C05(ctx):
+    import k2
+    n = 150 if ctx.quick() else 1500
+    # random try programs with raised failure rate, differing depths (the profile space where D1 lived)
+    progs = scaffold_batch(ctx, ["a0t1s0", "a0t1s1"], n, fail_rate=(1, 4), max_depth=4, handler_rate=(1, 3))
+    # all placements of one or two failures over small profiles
+    profiles = [(1, 2), (2, 1), (1, 3, 3), (2, 1, 3), (3, 2, 1), (1, 1, 2), (2, 3)] if ctx.quick() else \
+        [pr for nb in (2, 3) for pr in __import__("itertools").product((1, 2, 3), repeat=nb)]
+    i = 0
+    for prof in profiles:
+        cells = [(b, k) for b in range(len(prof)) for k in range(prof[b])]
+        for fc in cells:
+            for kind in ("a0t1s0", "a0t1s1"):
+                p = k2.gen_scaffold(ctx.rng, "q%d" % i, kind, profile=prof, fail_rate=(0, 1), block_rate=(0, 1), handler_rate=(0, 1))
+                i += 1
+                # force a failure exactly in cell fc: first op of that (branch, step) that can fail
+                st = p.steps(fc[0])[fc[1]]
+                st[0].mode = "init" if fc[1] == 0 else "andThen"
+                st[0].out = ("fail", 7 + fc[0])
+                progs.append(p)
+    run_k2(ctx, progs)
+    ctx.out.coverage["rule"] = ("try macros (sequential and thread-spawning): random instrumented programs with failure rate 1/4 over "
+                                "differing depth profiles + every single-failure placement over the listed profiles; compiled with the "
+                                "real macros and compared (value, event order, thread names) with the Lean reference semantics and with "
+                                "the semantics of the model's generated code; distinct = program text with numbers erased")
+
+
+# structurally invalid inputs (property C15) and why; every one must be rejected (parse error or configuration rejection)
+INVALID = [
+    ("", "no branch"), (",", "empty branch"), ("a,,b", "empty branch"), ("a, ,b", "empty branch"),
+    ("map => |a| a", "no branch (handler only)"),
+    ("a <<<", "<<< without >>>"), ("a |> f <<<", "<<< without >>>"), ("a |> >>> <<< <<<", "<<< without >>>"),
+    ("a |> >>> |> f ~<<< |> g", "<<< without a matching >>> in the same step"),
+    ("a => >>> ~<<<", "<<< without a matching >>> in the same step"),
+    ("a |> >>> ~|> b <<< |> c", "<<< without a matching >>> in the same step"),
+    ("a, b ?? >>> ~=> >>> ..x() ~<<< <<<", "<<< without a matching >>> in the same step"),
+    ("a .. >>> b", ">>> after a non-wrapper operator"), ("a -> >>> f", ">>> after a non-wrapper operator"),
+    ("a ^@ >>> x, y", ">>> after a non-wrapper operator"), ("a =>[] >>> |> f", ">>> after a non-wrapper operator"),
+    ("a |n> >>> |> f", ">>> after a non-wrapper operator"), ("a <| >>> b", ">>> after a non-wrapper operator"),
+    ("a <<< >>>", ">>> combined with <<<"), ("a |> >>> <<< >>> |> f", ">>> combined with <<<"),
+    ("let (a, b) = x", "non-identifier let pattern"), ("let Some(a) = x |> f", "non-identifier let pattern"),
+    ("let _ = x, y", "non-identifier let pattern"), ("a, let (p, q) = b ~|> f", "non-identifier let pattern"),
+]
+
+
+def dup_option_inputs():
+    import itertools
+    names = ["fcp", "joiner", "transpose", "lazy"]
+    out = []
+    for r in (1, 2, 3, 4):
+        for sub in itertools.permutations(names, r):
+            for n in sub:
+                for pos in range(r + 1):
+                    opts = [G.OPTION_SRC[x][0] for x in sub]
+                    opts.insert(pos, G.OPTION_SRC[n][-1])
+                    out.append((" ".join(opts) + " a ~|> f, b", "option %s given twice" % n))
+                    if r == 4:
+                        out.append((" ".join(opts) + ", a ~|> f, b", "option %s given twice" % n))
+                        out.append((" ".join(opts) + " |> g, a", "option %s given twice" % n))
+    return out
+
+
+def judge_total(ctx, r, must_reject=None):
+    """C15 oracle on one real expansion.  Returns a violation description or None."""
+    if r.parse.startswith("panic:") and "CfgReject" not in r.parse:
+        return "the parser panicked: " + r.parse
+    if r.parse == "ok" and k1.outcome_class(r.gen) == "internal":
+        return "the generator died with an internal panic: " + r.gen
+    if r.parse == "ok" and r.gen == "ok" and r.valid == "0":
+        return "the emitted tokens are not a syntactically valid Rust expression (syn::parse2::<Expr> rejects them)"
+    if must_reject and r.parse == "ok" and r.gen == "ok":
+        return "structurally invalid input (%s) was accepted silently" % must_reject
+    return None
+
+
+def body_C15(ctx):
+    rng = ctx.rng
+    n = 1500 if ctx.quick() else 20000
+    items = []
+    must = {}
+    for src, why in INVALID + dup_option_inputs():
+        for k in (G.KINDS if not ctx.quick() else ["a1t1s1", "a1t0s0", rng.pick(G.KINDS)]):
+            must[(k, src)] = why
+            items.append((k, src, "invalid"))
+    for s in G.MALFORMED:
+        items.append((rng.pick(G.KINDS), s, "malformed"))
+    for _ in range(n):
+        k = rng.pick(G.KINDS)
+        s = G.random_program(rng, k, simple=rng.chance(1, 2))
+        items.append((k, s, "random"))
+        for _ in range(2):
+            items.append((k, G.mutate(rng, s), "mutated"))
+            s = G.mutate(rng, s)
+    cases = mk_cases(items)
+    reals, _ = ctx.k1(cases)
+    seen = set()
+    for r in reals:
+        why = judge_total(ctx, r, must.get((r.kind, r.src)))
+        if why:
+            sig = re.sub(r"[^a-z]+", "-", why.lower())[:60]
+            if sig in seen and len(seen) > 0:
+                continue
+            seen.add(sig)
+            ctx.out.violation({"macro_kind": r.kind, "source": r.src, "what": why, "real_parse": r.parse, "real_gen": r.gen,
+                               "replay_cmd": "./check C15 --replay <this file>"}, found_input=True, signature=None)
+    ctx.out.coverage["rule"] = ("structurally invalid inputs of the property's list (all must be rejected), duplicated options at every "
+                                "position of every option permutation, hand-written malformed inputs, random programs and 2 rounds of token "
+                                "mutations; oracle on the real expander: no panic other than the 4 whitelisted configuration rejections, "
+                                "accepted output parses as syn::Expr; every case also compared with the model's outcome class and tokens")
+
+
 PROPS = {
+    "C15": ("JoinModel.Props.C20", body_C15),
+    "C05": ("JoinModel.Props.C20", body_C05),
     "C07": ("JoinModel.Props.C07", body_C07),
     "C20": ("JoinModel.Props.C20", body_C20),
 }
